@@ -240,6 +240,105 @@ type wiring struct {
 	all     bool // ... on every path to a success return (no shortcut around the primitive)
 }
 
+// roundingRoute: the rounding directions f reaches by the library's other route to Ceil / Floor - a local copy of
+// decimal.Context128 whose RoundingMode is set to a constant and whose only use is as the receiver of RoundToInt (this is
+// how the library itself defines Floor). Returns the constant modes; ok=false when a mode is not a constant or the
+// local context is used for anything else.
+func (c *Ctx) roundingRoute(f *ssa.Function) (modes map[int64]bool, ok bool) {
+	modes = map[int64]bool{}
+	ok = true
+	seen := map[*ssa.Function]bool{}
+	var visit func(g *ssa.Function, depth int)
+	visit = func(g *ssa.Function, depth int) {
+		if g == nil || seen[g] || len(g.Blocks) == 0 || depth > 3 {
+			return
+		}
+		seen[g] = true
+		instrs(g, func(b *ssa.BasicBlock, i int, in ssa.Instruction) {
+			if call, isC := in.(ssa.CallInstruction); isC {
+				if cal := calleeOf(call); cal != nil && c.inModule(cal) {
+					visit(cal, depth+1)
+				}
+			}
+			st, isSt := in.(*ssa.Store)
+			if !isSt {
+				return
+			}
+			al, mode, isLocal := localRoundingContext(st)
+			if al == nil {
+				return
+			}
+			if !isLocal {
+				ok = false
+				return
+			}
+			modes[mode] = true
+		})
+	}
+	visit(f, 0)
+	return modes, ok
+}
+
+// localRoundingContext: st stores a constant into the RoundingMode field of a local decimal.Context that is a copy of
+// Context128 and is used only as the receiver of RoundToInt. al == nil: st is no store into a Context's RoundingMode.
+func localRoundingContext(st *ssa.Store) (al *ssa.Alloc, mode int64, ok bool) {
+	fa, isFA := st.Addr.(*ssa.FieldAddr)
+	if !isFA || fieldName(fa) != "RoundingMode" {
+		return nil, 0, false
+	}
+	nt := namedOf(fa.X.Type())
+	if nt == nil || nt.Obj().Pkg() == nil || nt.Obj().Pkg().Path() != decimalPath || nt.Obj().Name() != "Context" {
+		return nil, 0, false
+	}
+	a, isAl := fa.X.(*ssa.Alloc)
+	if !isAl {
+		return &ssa.Alloc{}, 0, false
+	}
+	k, isK := constIntArg(st.Val)
+	if !isK {
+		return a, 0, false
+	}
+	copied := false
+	for _, ref := range *a.Referrers() {
+		switch r := ref.(type) {
+		case *ssa.Store:
+			// the whole-struct copy of Context128
+			if r.Addr != ssa.Value(a) {
+				return a, 0, false
+			}
+			u, isU := r.Val.(*ssa.UnOp)
+			if !isU {
+				return a, 0, false
+			}
+			g, isG := u.X.(*ssa.Global)
+			if !isG || g.Name() != "Context128" || g.Pkg == nil || g.Pkg.Pkg.Path() != decimalPath {
+				return a, 0, false
+			}
+			copied = true
+		case *ssa.FieldAddr:
+			if fieldName(r) != "RoundingMode" {
+				return a, 0, false
+			}
+			for _, r2 := range *r.Referrers() {
+				if s2, isS := r2.(*ssa.Store); !isS || s2.Addr != ssa.Value(r) {
+					return a, 0, false
+				}
+			}
+		case *ssa.UnOp:
+			for _, r2 := range *r.Referrers() {
+				call, isC := r2.(*ssa.Call)
+				if !isC || calleeOf(call) == nil || calleeOf(call).String() != "("+decimalPath+".Context).RoundToInt" || call.Call.Args[0] != ssa.Value(r) {
+					return a, 0, false
+				}
+			}
+		case *ssa.DebugRef:
+		default:
+			return a, 0, false
+		}
+	}
+	return a, k, copied
+}
+
 // everyPathCalls: no path from f's entry to a success return avoids a call of one of the named callees
 // (directly, or through a module function that reaches one).
 func (c *Ctx) everyPathCalls(f *ssa.Function, names []string) bool {
@@ -304,6 +403,27 @@ func checkWiring(c *Ctx, rule string, ws []wiring) {
 		for _, m := range w.mustNot {
 			if cs[m] {
 				bad = m
+			}
+		}
+		if w.name == "ceil" || w.name == "floor" {
+			// ... or rounding to an integer in a local context whose mode is the matching direction
+			want, other := int64(5), int64(4) // decimal.ToPositiveInf, decimal.ToNegativeInf
+			if w.name == "floor" {
+				want, other = other, want
+			}
+			if modes, okR := c.roundingRoute(f); okR && len(modes) > 0 && !has {
+				byMode := modes[want] && len(modes) == 1
+				if modes[other] {
+					bad = "RoundToInt in a context that rounds the other way"
+				}
+				if byMode && bad == "" {
+					c.R.Check(rule, w.name, c.P.Pos(f.Pos()), true, "")
+					c.R.Check(rule, w.name+":every-path", c.P.Pos(f.Pos()), c.everyPathCalls(f, []string{"(" + decimalPath + ".Context).RoundToInt"}), fmt.Sprintf("`%s` %s on every path", w.name, w.why))
+					continue
+				}
+				if bad == "" {
+					bad = fmt.Sprintf("RoundToInt in a context with rounding mode(s) %v", modes)
+				}
 			}
 		}
 		c.R.Check(rule, w.name, c.P.Pos(f.Pos()), has && bad == "", fmt.Sprintf("`%s` %s: expected a call of %v (found=%v), must not call %v (found %q)", w.name, w.why, w.must, has, w.mustNot, bad))
@@ -912,6 +1032,10 @@ func c18RoundDirection(c *Ctx) {
 		cs := c.calleesOf(f)
 		up := cs["("+decimalPath+".Context).Ceil"]
 		down := cs["("+decimalPath+".Context).Floor"]
+		if modes, okR := c.roundingRoute(f); okR {
+			up = up || modes[5]
+			down = down || modes[4]
+		}
 		switch {
 		case up && !down:
 			return "up"
@@ -1366,8 +1490,61 @@ func runC19(c *Ctx) {
 				ok = true
 			}
 		})
+		written := false
+		if !ok {
+			// ... or AddDate written out as the library defines it: the civil fields of t, each shifted, the clock fields,
+			// nanoseconds and location of t, normalised once by time.Date
+			strip := func(v ssa.Value) ssa.Value {
+				for {
+					switch x := v.(type) {
+					case *ssa.Convert:
+						v = x.X
+						continue
+					case *ssa.ChangeType:
+						v = x.X
+						continue
+					}
+					return v
+				}
+			}
+			fieldOfT := func(v ssa.Value, single string, tuple string, idx int) bool {
+				v = strip(v)
+				if ex, isE := v.(*ssa.Extract); isE {
+					call, isC := ex.Tuple.(*ssa.Call)
+					return isC && calleeOf(call) != nil && calleeOf(call).String() == "(time.Time)."+tuple && ex.Index == idx && call.Call.Args[0] == ssa.Value(f.Params[0])
+				}
+				call, isC := v.(*ssa.Call)
+				return isC && calleeOf(call) != nil && calleeOf(call).String() == "(time.Time)."+single && call.Call.Args[0] == ssa.Value(f.Params[0])
+			}
+			shifted := func(v ssa.Value, single string, idx int, par int) bool {
+				bo, isB := strip(v).(*ssa.BinOp)
+				if !isB || bo.Op != token.ADD || par >= len(f.Params) {
+					return false
+				}
+				x, y := strip(bo.X), strip(bo.Y)
+				return fieldOfT(x, single, "Date", idx) && y == ssa.Value(f.Params[par]) || fieldOfT(y, single, "Date", idx) && x == ssa.Value(f.Params[par])
+			}
+			instrs(f, func(b *ssa.BasicBlock, i int, in ssa.Instruction) {
+				call, isC := in.(*ssa.Call)
+				if !isC || calleeOf(call) == nil || calleeOf(call).String() != "time.Date" {
+					return
+				}
+				a := call.Call.Args
+				if shifted(a[0], "Year", 0, 1) && shifted(a[1], "Month", 1, 2) && shifted(a[2], "Day", 2, 3) &&
+					fieldOfT(a[3], "Hour", "Clock", 0) && fieldOfT(a[4], "Minute", "Clock", 1) && fieldOfT(a[5], "Second", "Clock", 2) &&
+					fieldOfT(a[6], "Nanosecond", "-", 0) && fieldOfT(a[7], "Location", "-", 0) {
+					for _, ref := range *call.Referrers() {
+						if _, isR := ref.(*ssa.Return); isR {
+							ok, written = true, true
+						}
+					}
+				}
+			})
+		}
 		c.R.Check(rule, "addDate", c.P.Pos(f.Pos()), ok, "`addDate(t,y,m,d)` must return t.AddDate(y, m, d) with the shifts in that order")
-		if ok {
+		if written {
+			c.R.Check(rule, "addDate:every-path", c.P.Pos(f.Pos()), c.everyPathCalls(f, []string{"time.Date"}), "`addDate` must shift civil fields on every path")
+		} else if ok {
 			c.R.Check(rule, "addDate:every-path", c.P.Pos(f.Pos()), c.everyPathCalls(f, []string{"(time.Time).AddDate"}), "`addDate` must shift civil fields (t.AddDate) on every path: a shortcut such as t.Add(d*24h) shifts the instant instead, which lands on another wall-clock time across a daylight-saving change")
 		}
 	}
@@ -1387,8 +1564,11 @@ func runC19(c *Ctx) {
 			rs := plainOrigins.Roots(ret.Results[0])
 			if len(rs) == 1 && rs[0].Kind == "call" && rs[0].Fn != nil {
 				call := rs[0].V.(*ssa.Call)
+				tuple := map[string][2]interface{}{"Year": {"Date", 0}, "Month": {"Date", 1}, "Day": {"Date", 2}, "Hour": {"Clock", 0}, "Minute": {"Clock", 1}, "Second": {"Clock", 2}}
 				if rs[0].Fn.String() == "(time.Time)."+spec.method && call.Call.Args[0] == ssa.Value(f.Params[0]) {
 					ok = true
+				} else if tp, has := tuple[spec.method]; has && rs[0].Fn.String() == "(time.Time)."+tp[0].(string) && rs[0].Idx == tp[1].(int) && call.Call.Args[0] == ssa.Value(f.Params[0]) {
+					ok = true // the matching result of t.Date() / t.Clock()
 				} else {
 					why = "returns " + rs[0].Fn.String()
 				}
@@ -1508,7 +1688,11 @@ func runC19(c *Ctx) {
 			a := call.Call.Args
 			field := func(v ssa.Value, m string) (*ssa.Call, bool) {
 				rs := plainOrigins.Roots(v)
-				if len(rs) != 1 || rs[0].Kind != "call" || rs[0].Fn == nil || rs[0].Fn.String() != "(time.Time)."+m {
+				if len(rs) != 1 || rs[0].Kind != "call" || rs[0].Fn == nil {
+					return nil, false
+				}
+				// now.Year() ... or the matching result of now.Date()
+				if !(rs[0].Fn.String() == "(time.Time)."+m || rs[0].Fn.String() == "(time.Time).Date" && rs[0].Idx == map[string]int{"Year": 0, "Month": 1, "Day": 2}[m]) {
 					return nil, false
 				}
 				recv := rs[0].V.(*ssa.Call).Call.Args[0]
